@@ -240,10 +240,23 @@ CastT<S, G> Spline<K, G>::operator()(const S & t, OptTangent<CastT<S, G>> vel, O
     return cast<S>(m_end_g.back());
   }
 
-  const auto istar = find_idx(static_cast<double>(t));
+  auto istar = find_idx(static_cast<double>(t));
 
-  const double ta = istar == 0 ? 0 : m_end_t[istar - 1];
+  // segments can have zero duration (a crop boundary within rounding of a knot, or knots that coincide
+  // after concatenation shifted them): evaluate on a neighboring segment that contains t
+  const auto seg_begin = [this](std::size_t i) { return i == 0 ? 0. : m_end_t[i - 1]; };
+  while (istar + 1 < m_end_t.size() && m_end_t[istar] <= seg_begin(istar)) { ++istar; }
+  while (istar > 0 && m_end_t[istar] <= seg_begin(istar)) { --istar; }
+
+  const double ta = seg_begin(istar);
   const double T  = m_end_t[istar] - ta;
+
+  if (T <= 0) {
+    // all segments have zero duration
+    if (vel.has_value()) { vel.value().setZero(); }
+    if (acc.has_value()) { acc.value().setZero(); }
+    return cast<S>(m_end_g.back());
+  }
 
   const double Del = m_seg_Del[istar];
   const S u        = std::clamp<S>(S(m_seg_T0[istar]) + S(Del) * (t - S(ta)) / S(T), S(0.), S(1.));
@@ -286,7 +299,8 @@ Tangent<G> Spline<K, G>::arclength(double t) const
     const double tb = m_end_t[i];
 
     const double ua = m_seg_T0[i];
-    const double ub = ua + m_seg_Del[i] * (std::min<double>(t, tb) - ta) / (tb - ta);
+    // (a segment of zero duration is traversed completely)
+    const double ub = ua + m_seg_Del[i] * (tb > ta ? (std::min<double>(t, tb) - ta) / (tb - ta) : 1.);
 
     for (auto k = 0u; k < Dof<G>; ++k) {
       // derivative b0 + b1 x + b2 x2 has coefficients [b0, b1, b2] = [a1, 2a2, 3a3]
